@@ -104,6 +104,19 @@ def load_calibrator_state(checkpoint_path: PathLike, _code_state_version: int) -
     )
 
 
+def load_samplers_id_table(checkpoint_path: PathLike) -> dict[str, int] | None:
+    """Load the sampler-name-to-id table stored with a checkpoint.
+
+    Args:
+        checkpoint_path: the folder where the data are stored
+
+    Returns:
+        the table, or None if the checkpoint does not contain it (older checkpoints)
+    """
+    with (Path(checkpoint_path) / "calibration_params.json").open() as f:
+        return json.load(f).get("samplers_id_table")
+
+
 def save_calibrator_state(  # noqa: PLR0913
     checkpoint_path: PathLike,
     parameters_bounds: NDArray[np.float64],
@@ -128,6 +141,7 @@ def save_calibrator_state(  # noqa: PLR0913
     series_samp: NDArray[np.float64],
     batch_num_samp: NDArray[np.int64],
     method_samp: NDArray[np.int64],
+    samplers_id_table: Mapping[str, int] | None = None,
 ) -> None:
     """Store the state of the calibrator in a given folder.
 
@@ -155,6 +169,7 @@ def save_calibrator_state(  # noqa: PLR0913
         series_samp: the sampled series
         batch_num_samp: the sampling batch number
         method_samp: the sampling method
+        samplers_id_table: the map from sampler names to the ids stored in method_samp
     """
     checkpoint_path = Path(checkpoint_path)
     # create directory if needed
@@ -177,6 +192,7 @@ def save_calibrator_state(  # noqa: PLR0913
         "current_batch_index": current_batch_index,
         "n_sampled_params": n_sampled_params,
         "n_jobs": n_jobs,
+        "samplers_id_table": samplers_id_table,
     }
     # save calibration parameters in a json dictionary
     with (checkpoint_path / "calibration_params.json").open("w") as f:
